@@ -157,6 +157,13 @@ class Scenario:
                     p.queue.get_nowait()          # lost (harness-level loss of one publication)
                     self.dropped += 1
                     continue
+            if kind.name == 'REQUEST' and body[0] == 1 and self.sc.get('lose_at_req') == body[1][0] \
+                    and dst != src and c.nodes[dst].alive and not getattr(self, '_lost_at_req', False):
+                # the target instance dies between the start request and its execution
+                self._lost_at_req = True
+                self.d.crash(dst)
+                self.sync()
+                continue
             if kind.name == 'REQUEST' and body[0] == 1 and self.beh.get(body[1][0]) == 'lostreq':
                 p.queue.get_nowait()              # the start request never reaches the Supervisor
                 continue
